@@ -25,6 +25,9 @@ VARIABLES mode,      \* journal mode of the database
           ps,        \* pager protocol state of the application's connection
           walc,      \* the WAL holds committed, captured frames that are not checkpointed yet
           role,      \* "primary" | "demoted" | "replica" | "holder" (replica holding the halt lock) | "exholder"
+                     \* | "destroying": a demoted node at the very moment the lease service sees its lease go
+                     \*   away (from then on another node may be primary): the node has stopped acting as primary
+                     \*   BEFORE it gives the lease up, so this is a state without authority like "demoted"
           img, pos, logn,   \* logical image version, position, number of LTX files
           exited,    \* LiteFS stopped itself (Store.Exit)
           last, hist
@@ -61,7 +64,7 @@ Advance ==
 
 LoseAuthority ==
   /\ role = "primary" /\ ~exited
-  /\ role' = "demoted"
+  /\ role' \in {"demoted", "destroying"}
   /\ UNCHANGED <<mode, ps, walc, img, pos, logn, exited>>
   /\ last' = [op |-> "demote", res |-> "none"]
   /\ H("demote")
